@@ -4,6 +4,10 @@ CHECKS = [
   "text": "Every OMML tree of a constructor grammar (all 11 structures, every optional child present/absent/empty, every chr/begChr/endChr presence variant, bracket and symbol runs, oMathPara/property wrappers; all 2- and 3-sequences over a 65-node alphabet; every operand slot nested to depth 3 (quick) / 4 (thorough); all ordered pairs of formulas as 2-step histories) is converted by the real omml_to_latex and checked for totality, determinism, exactly-once/in-order run text, brace balance and equality with a reference transcription of the documented templates. Exhaustive within those bounds; says nothing about deeper trees.",
   "note": "Trusted: ElementTree built in memory == parsed XML; reference templates transcribed from the module docstring and compared only on the well-formed subset.",
   "technique": "bounded-exhaustive term enumeration (SmallCheck style) executed on the implementation, reference-model comparison"},
+ {"property_id": "C17", "category": "model_checking",
+  "text": "The removal logic of the HTML-family parsers is a small state machine (visible / hidden(element, depth)); every delimited parser-event sequence of length <= 3 (quick) / <= 4-5 (thorough) over a 19-symbol content alphabet (open/close of block, inline and table tags, void tags in both spellings, nested raw-text and ordinary removable elements, the element's own tag, text, comment, CDATA) is rendered to markup for each of the 7 removable elements in 4 contexts and fed to the real read_html, read_mhtml (3 transfer encodings), read_epub (single chapter and 3-chapter books whose first chapter ends inside an unterminated removable element) and the MSG HTML body converter; a two-state reference automaton assigns each token the class must-be-visible / must-not-appear. Exhaustive within the bounds.",
+  "note": "Trusted: Python's html.parser tokenisation (shared by implementation and rendering), the reference automaton (same-name nesting; raw-text elements end at first end tag), EPUB/MHTML writers in verif/gen/htmlfam.py.",
+  "technique": "exhaustive enumeration of bounded parser-event sequences executed on the implementation against a reference automaton"},
 ]
 _BUILT = {c["property_id"] for c in CHECKS}
 NOT_APPLICABLE = [{"property_id": f"C{i:02d}", "reason": "check under construction in this round (see DESIGN.md section 9 build order); not yet claimed"} for i in range(1, 21) if f"C{i:02d}" not in _BUILT]
